@@ -5,7 +5,7 @@ from props import _fitcheck as X
 ID = "C06"
 SECTIONS = ["ops", "fitters"]
 LEAN_MODULES = ["QExPy.Props.C06"]
-THEOREMS = ["QExPy.C06_wls_expansion", "QExPy.C06_wls_optimal", "QExPy.C06_wls_unique",
+THEOREMS = ["QExPy.C06_wls_expansion", "QExPy.C06_wls_optimal", "QExPy.C06_wls_unique", "QExPy.C06_wls_near_optimal",
             "QExPy.C06_vandermonde_posdef", "QExPy.C06_polyfit_characterisation",
             "QExPy.C06_order", "QExPy.C06_poly_design", "QExPy.C06_objective_poly",
             "QExPy.C06_cov_factor", "QExPy.C06_select_mem", "QExPy.C06_select_sublist",
